@@ -59,6 +59,12 @@ INFO = {
  'C15r3': ('Pooled::_initialize restarts at LayerId(path_to_root.len()) instead of the residual depth', 'a cut-set sub-problem whose path went through a long arc made by an ANCESTOR (or the initial state), narrow width, depth-free state'),
  'C16yr3': ('knapsack example: ratio key divides by weight.max(1) (division-by-zero guard)', 'an item of weight 0 and positive profit sorting behind heavier items, width 1'),
  'C17r3': ('gap() = ((ub - lb) as f32 / max magnitude).min(1.0): the opposite-sign branch dropped', 'lb < 0 < ub with |lb| + |ub| >= 2^63: overflow (panic in debug, negative gap in release)'),
+ 'C06r3': ('_finalize_exact (Mdd and Pooled): best_exact_node = best_exact_node.or(best_node) instead of best_node when the longest path is exact', 'a merge occurred, the longest path avoids every merged node but its terminal node also has an inexact inbound path, and ANOTHER terminal node with only exact inbound paths has a smaller value: needs several terminal states'),
+ 'C14r3': ('Mdd::_compute_thresholds: if tot_rub < best_known instead of <= (the threshold rule no longer agrees with the rough-bound pruning at a tie)', 'SimpleCache, an incumbent exactly equal to value + rub of some node (typically a caller supplied primal), that state reached again with a larger value'),
+ 'C19r3': ('sequential solver: the cache test moved from process_one_node into a pop-and-skip loop in get_workload which returns Complete directly when it empties the fringe (bypassing best_ub = best_lb)', 'SimpleCache and a search whose last popped node(s) are skipped by the cache: exact run with a stale upper bound'),
+ 'C20r3': ('Mdd::as_graphviz hoists let show_deleted = config.show_deleted && !self.is_exact() (the trait method, which is also true for an exact best path)', 'a relaxed diagram with a squashed layer AND an exact best path, show_deleted = true: deleted nodes vanish, clusters list undeclared ids'),
+ 'C16xr3': ('talentsched example: get_present counts the maybe_scenes of a merged state as scenes still to be shot', 'a merged state holding an actor who has left in some of the merged states only: three actors on three scenes (triangle), width 1 or 2'),
+ 'C16zr3': ('srflp example: transition_cost counts the free slots as for_each_in_domain does (n - depth): one cut too many on the arcs leaving a merged node', '>= 5 departments, a dense flow matrix, a merged node (default width or -w 1)'),
  'C18r3': ('SimpleDominanceChecker::is_dominated_or_insert checks under get_mut + retain, drops the guard, then pushes through entry().or_default()', 'two threads recording comparable states a < b on one key, both past retain before either push: store {a, b}; only the THRESHOLD of later dominated verdicts is wrong'),
 }
 HISTORY = {
@@ -73,6 +79,12 @@ HISTORY = {
  'C17': 'first run: MISSED by the quick grid (no close pairs at large magnitudes; the thorough grid had them) -> neighbours v+-1, v+2 of every large grid value',
  'C19': 'first run: MISSED by C19 (caught by C11 at the container level): needs 6-7 item knapsacks -> KPB-6 / KPB-7 complete families in the cut-off plans',
  'C03b': 'caught by C04 and C09 (single-worker sweep: hang confirmed by the second, longer run); C03 reports it as par:no-result:deadlock when its budget reaches a caching unit',
+ 'C16b': 'first run: MISSED (the quick tier had one aircraft class only wherever it had two runways) -> scope (3 aircraft, 2 classes, 2 runways) over reduced alphabets added to the quick tier',
+ 'C16yr3': 'the knapsack scope had weights >= 1 only; weightless items (well formed: the unchanged example handles them) were added when the change was received, before its first run',
+ 'C16xr3': 'the scope stopped at 2 actors -> all 3 x 3 presence matrices whose actors play in >= 2 scenes (triangles) added to the quick tier before the first run; while confirming this seed the sub-agent noticed off-by-one answers of the UNCHANGED example: genuine defect D14',
+ 'C16zr3': 'first run: MISSED (the scope stopped at 4 departments with flows {0,1,2}: merged states need >= 4 departments and their cut values only matter for dense matrices) -> 5 departments, lengths {1,2} (non decreasing in the quick tier), flows {1,2}; while looking for a seed in lcs the sub-agent found the UNCHANGED lcs example wrong: genuine defect D16',
+ 'C14b': 'first run: caught by C03 only; C14 itself since the explicit-state search (all interleavings) runs with a primal',
+ 'C05r3': 'needs two pre-emptions with both workers cut off: caught by the deeper bound and by the explicit-state search',
  'C06b': 'first run: caught by C15 and C01, MISSED by C06 under load (the irrelevance plans came last and the cap cut them) -> plans are now run cheapest first, the irrelevance families are reached in every quick run',
 }
 results = {}
